@@ -53,7 +53,7 @@ static int inited, initing;
 static char home[4096]; static size_t homelen;
 static char role[64] = "-", prog[64] = "?";
 static char trace[32], gatecls[32], countcls[32] = "m";
-static int logfd = -1, gatefd = -1, gated_prog, datacap = 64;
+static int logfd = -1, gatefd = -1, gated_prog, datacap = 64, readchunk;
 static pid_t mypid;
 static long ncount;           /* counted calls of this process image (inherited over fork) */
 static char planbuf[1024];
@@ -115,6 +115,7 @@ static void shim_init(void)
   if ((e = getenv("NQV_PLAN"))) strncpy(planbuf, e, sizeof planbuf - 1);
   if ((e = getenv("NQV_PASSWD"))) strncpy(pwfile, e, sizeof pwfile - 1);
   if ((e = getenv("NQV_DATACAP"))) datacap = atoi(e);
+  if ((e = getenv("NQV_READCHUNK"))) readchunk = atoi(e);   /* reads of descriptors 0 and 1 return at most this many bytes */
   {
     char b[4096]; ssize_t n = readlink("/proc/self/exe", b, sizeof b - 1);
     if (n > 0) { char *s; b[n] = 0; s = strrchr(b, '/'); strncpy(prog, s ? s + 1 : b, sizeof prog - 1); }
@@ -494,6 +495,7 @@ ssize_t read(int fd, void *buf, size_t n)
   ssize_t r; struct ev e; struct decision d; d.act = ACT_GO;
   shim_init();
   NEED(read);
+  if (inited && readchunk > 0 && fd <= 1 && n > (size_t) readchunk) n = readchunk;
   if (!inited || fd == logfd || fd == gatefd || !watching('r')) return r_read(fd, buf, n);
   ev_begin(&e, "read"); ev_int(&e, "fd", fd); ev_int(&e, "len", n);
   pre('r', &e, &d);
